@@ -52,17 +52,17 @@ type Violation struct {
 
 // ReplayFile is the on-disk replay format: the complete choice sequence of one run plus a readable description.
 type ReplayFile struct {
-	Property string         `json:"property"`
-	Class    string         `json:"class"`
-	Detail   string         `json:"detail"`
-	Seed     uint64         `json:"seed"`
-	Run      int            `json:"run"`
-	HB       bool           `json:"hb"`
-	Choices  []int          `json:"choices"`
-	PRNG     bool           `json:"prng,omitempty"` // choices are regenerated from (seed, run) instead of being listed (crashed runs)
-	Hash     uint64         `json:"event_log_hash"`
-	Case     map[string]any `json:"case"`
-	Stack    string         `json:"stack,omitempty"`
+	Property string `json:"property"`
+	Class    string `json:"class"`
+	Detail   string `json:"detail"`
+	Seed     uint64 `json:"seed"`
+	Run      int    `json:"run"`
+	HB       bool   `json:"hb"`
+	sim.Choices
+	PRNG  bool           `json:"prng,omitempty"` // choices are regenerated from (seed, run) instead of being listed (crashed runs)
+	Hash  uint64         `json:"event_log_hash"`
+	Case  map[string]any `json:"case"`
+	Stack string         `json:"stack,omitempty"`
 }
 
 func main() {
@@ -228,12 +228,12 @@ func main() {
 					writeJSON(file, ReplayFile{Property: p.ID, Class: p.ID + "/data-race", Detail: detail, Seed: *seed, Run: i, HB: true,
 						Choices: rec.Values(), Hash: res.Hash, Case: res.Case})
 				}
-				rep.Violations = append(rep.Violations, Violation{Run: i, Class: p.ID + "/data-race", Detail: detail, Replay: file, From: len(rec.Log), Shrunk: len(rec.Log)})
+				rep.Violations = append(rep.Violations, Violation{Run: i, Class: p.ID + "/data-race", Detail: detail, Replay: file, From: rec.Log.Len(), Shrunk: rec.Log.Len()})
 				break
 			}
 		}
 		if res.Class != "" {
-			v := Violation{Run: i, Class: res.Class, Detail: res.Detail, From: len(rec.Log)}
+			v := Violation{Run: i, Class: res.Class, Detail: res.Detail, From: rec.Log.Len()}
 			vals := rec.Values()
 			class := res.Class
 			file := fmt.Sprintf("%s/%s-seed%d-run%d.json", *rdir, p.ID, *seed, i)
@@ -242,7 +242,7 @@ func main() {
 				writeJSON(file, ReplayFile{Property: p.ID, Class: res.Class, Detail: res.Detail, Seed: *seed, Run: i, HB: sim.RaceEnabled,
 					Choices: vals, Hash: res.Hash, Case: res.Case, Stack: res.Stack})
 				v.Replay = file
-				v.Shrunk = len(vals)
+				v.Shrunk = vals.Len()
 				rep.Violations = append(rep.Violations, v)
 				flush()
 				if res.Leaked {
@@ -263,7 +263,7 @@ func main() {
 				}
 				return r.Class
 			})
-			v.Shrunk = len(best)
+			v.Shrunk = best.Len()
 			// final run of the minimal sequence, strictly, with trace, for the file
 			rp := &sim.Replay{Vals: best, Strict: true}
 			o2 := opts
